@@ -272,7 +272,9 @@ func newRows(result *updog.Result, groupBy []string) *rows {
 		cols: append(groupBy, "count"),
 	}
 
-	if len(result.Groups) > 0 {
+	// A grouped query yields one row per group -- none at all when no group matched;
+	// only a query without GROUP BY is answered with the single total-count row.
+	if len(groupBy) > 0 {
 		for _, rr := range result.Groups {
 			fields := []string{}
 			for _, f := range rr.Fields {
